@@ -1048,7 +1048,7 @@ def apply_rewrites(toks, rules, counts, ctx):
             fnc = getattr(rewrites2, "rw_" + kind, None)
             if fnc is None:
                 raise ValueError("unknown rewrite " + kind)
-            toks = fnc(toks, counts, *args)
+            toks = fnc(toks, counts, *args, ctx=ctx) if getattr(fnc, "needs_ctx", False) else fnc(toks, counts, *args)
         toks = relex(text(toks))
     return toks
 
